@@ -459,6 +459,9 @@ func registerIntrinsics(m *Machine) {
 	registerTime(m)
 	registerReflect(m)
 	registerEnv(m)
+	registerLSlice(m)
+	registerBinary(m)
+	registerCrypto(m)
 }
 
 func (m *Machine) zeroResultByName(n string) Value {
